@@ -5,6 +5,7 @@ import (
 	"github.com/orbs-network/lean-helix-go/services/messagesfactory"
 	"github.com/orbs-network/lean-helix-go/services/rawmessagesfilter"
 	"github.com/orbs-network/lean-helix-go/spec/types/go/primitives"
+	"github.com/orbs-network/lean-helix-go/spec/types/go/protocol"
 	"github.com/orbs-network/lean-helix-go/state"
 	env "github.com/orbs-network/lean-helix-go/zzverifenv"
 	stub "github.com/orbs-network/lean-helix-go/zzverifstub"
@@ -12,6 +13,8 @@ import (
 
 func init() {
 	env.Register("C17_Filter", C17_Filter)
+	env.Register("C17_MainLoopForward", C17_MainLoopForward)
+	env.Register("C18_NodeLeader", C18_NodeLeader)
 }
 
 type c17Msg struct {
@@ -106,6 +109,74 @@ func C17_Filter() {
 	for _, m := range rec.msgs {
 		if m.delivered {
 			env.Reach("C17.some_delivery")
+		}
+	}
+}
+
+// C17_MainLoopForward: the step before the filter. A genuine PREPARE with a symbolic (any) height and instance is
+// handed to HandleConsensusMessage and taken by one iteration of the real MainLoop.run (channel model); the main
+// loop must pass it on to the worker whatever its height (the height filter and its cache live behind it). The
+// worker then handles it; after a sync to exactly the message's height the cached message reaches the new term.
+func C17_MainLoopForward() {
+	const me = 1
+	wd := newWorld(me, equalWeights(4))
+	n := wd.n
+	h := primitives.BlockHeight(env.NondetU64("height"))
+	env.Assume(h >= 1 && h < 1<<62)
+	blk := &stub.Block{H: h, Tag: 0x23, ProposalOK: true}
+	// the main loop's exit shuts its registry of contexts down, so the worker side is judged on a twin node that
+	// was not shut down; the message is signed in the twin's world (the main loop does not verify signatures)
+	twin := newWorld(me, equalWeights(4))
+	raw := twin.net.ppm(0, h, 0, blk).ToConsensusRawMessage()
+	ctx := env.CancelWhenIdle()
+	env.ChanOffer(n.m.messagesChannel, raw)
+	p := env.Catch(func() { n.m.run(ctx) })
+	env.Assert("C17.main.no_panic", p == 0)
+	env.Assert("C17.main.forwards_any_height", env.ChanBuffered(n.m.worker.MessagesChannel) == 1)
+	if env.ChanBuffered(n.m.worker.MessagesChannel) != 1 {
+		return
+	}
+	fw := <-n.m.worker.MessagesChannel
+	twin.n.m.worker.handleRawMessage(fw)
+	if h >= 2 {
+		out := len(twin.n.comm.Out)
+		twin.sync(&stub.Block{H: h - 1})
+		env.Assert("C17.guaranteed_delivery", len(twin.n.comm.Out) > out) // the cached proposal is answered with a PREPARE
+		env.Reach("C17.main.future")
+	}
+}
+
+// C18_NodeLeader: the leader function as the whole node uses it. The committee has a zero-weight member
+// (weights 3,1,0,4) or the configured weights. The node times out t times; a fully symbolic PREPREPARE for its
+// current view is stored only if its sender is the member at position (view mod committee size) of the ordered
+// committee the membership SPI returned, and every VIEW_CHANGE the node sends is addressed to that member.
+func C18_NodeLeader() {
+	me := env.Param("me")
+	t := env.Param("timeouts")
+	wd := newWorld(me, paramWeights())
+	n, ref := wd.n, wd.ref
+	for i := 0; i < t; i++ {
+		n.timeout()
+	}
+	v := n.m.state.View()
+	for _, s := range n.comm.Out {
+		if vc, ok := s.Msg.(*interfaces.ViewChangeMessage); ok {
+			env.Assert("C18.vote_addressed_to_leader", len(s.To) == 1 && len(s.To[0]) == 1 && s.To[0][0] == ref.leader(vc.View()))
+		}
+	}
+	hdr := newSymRef("m")
+	snd := newSymSender(wd.reg, "s", uint64(hdr.height), hdr.raw)
+	c := (&protocol.PreprepareContentBuilder{SignedHeader: hdr.b, Sender: snd.b}).Build()
+	ev := len(n.st.Events)
+	nval := len(n.bu.Validations)
+	n.deliver(interfaces.NewPreprepareMessage(c, symBlock("blk")).ToConsensusRawMessage())
+	for _, call := range n.bu.Validations[nval:] {
+		env.Assert("C18.consumer_told_the_leader", len(call.Member) == 1 && call.Member[0] == ref.leader(hdr.view))
+	}
+	if len(n.st.Events) > ev {
+		env.Assert("C18.proposal_from_leader_of_view", snd.id == ref.leader(hdr.view))
+		if hdr.view == v {
+			env.Reach("C18.node.accepted_current_view")
 		}
 	}
 }
